@@ -1467,6 +1467,37 @@ for _pid in ("C07", "C04", "C12", "C06", "C05", "C16"):
     _add_tie(_pid, "TaffyVerif.Props.TieFlexProg", TIE_FLEXPROG)
     PROPS[_pid]["trusted_base"] = list(PROPS[_pid].get("trusted_base", [])) + [TIE_FLEXPROG_TRUSTED]
 
+# flexbox.rs, determine_container_main_size IN PART (the arm that measures the child): Props/TieFlexProg2.lean
+TIE_FLEXPROG2 = ["TieFlexProg2." + t for t in (
+    "intrinsicItem_contentArm determine_container_main_size_content_arm_eq calculate_flex_item_eq for_mut_state toGen_layoutItems "
+    "calculate_layout_line_eq toGen_layoutLines final_layout_pass_eq compute_preliminary_hidden_loop_eq").split()]
+TIE_FLEXPROG2_TRUSTED = ("tier T (flexbox.rs, determine_container_main_size IN PART): only the `_ => { .. }` arm of `match (min_main_size, "
+                         "style_preferred, max_main_size)` (the one place where the function calls the tree) is translated, as a function of "
+                         "(constants, available_space, item) preceded by the `let`s of the enclosing function it reads (dir, "
+                         "main_content_box_inset, style_min, style_max: each declared exactly once, immutable, over constants / item only; the arm "
+                         "writes no variable of the enclosing function), after R2' and R7 (`let x = tree.m(..) OP rest` => `let out__ = tree.m(..); "
+                         "let x = out__ OP rest`); Props/TieFlexProg2.lean proves it equal to the corresponding part of FlexModel.intrinsicItem "
+                         "(contentArm; intrinsicItem_contentArm shows by rfl that intrinsicItem is its own text with contentArm in that place). "
+                         "The rest of determine_container_main_size (the tuple match with guards, f32::INFINITY as `none`, the loops, "
+                         "longest_line_length) is NOT tied by tier T. calculate_flex_item is translated whole after R8 (a parameter `p: &mut f32` / "
+                         "`&mut Size<f32>` of a function returning `()` is an in/out value: `p__in` by value, `let mut p = p__in`, `*p` reads / writes "
+                         "the local, the final values are returned; every occurrence of p must be `*p` or `p.method(..)`); the expected type of a "
+                         "call fixes the type variables of its result (`size.map(|s| s.into())` at Size<Option<f32>> / Size<AvailableSpace>); "
+                         "Props/TieFlexProg2.lean proves it, called with container_size / node_inner_size / direction of the constants, equal to "
+                         "FlexModel.calculateFlexItem read as a generated program; calculate_layout_line and final_layout_pass are translated whole: "
+                         "`for x in P.iter_mut().rev()` is the loop over List.reverse P with the updated list reversed back; a call statement of an "
+                         "R8 function is rewritten by R9 (`g(tree, x, &mut a, v, b);` => `let (a1, b1) = g(tree, &mut x, a, v, b); a = a1; b = b1;`: "
+                         "in/out arguments by value, final values assigned back; the loop variable of an iter_mut loop passed on is its place; "
+                         "cfg-gated parameters / arguments resolved by the build configuration); Props/TieFlexProg2.lean proves them equal to "
+                         "FlexModel.calculateLayoutLine / finalLayoutPass read as generated programs. Of compute_preliminary only the hidden-children loop "
+                         "is translated (the consecutive statements `let len = tree.child_count(node);` / `for order in 0..len {..}`, which write "
+                         "no variable of the enclosing function, as a function of (tree, node)); compute_preliminary_hidden_loop_eq proves it equal "
+                         "to BlockModel.hiddenLoop on the child styles under child_count node = n, get_child_id node i = i; the rest of "
+                         "compute_preliminary and compute_flexbox_layout as a whole are NOT tied by tier T")
+for _pid in ("C07", "C04", "C12", "C06", "C05", "C16"):
+    _add_tie(_pid, "TaffyVerif.Props.TieFlexProg2", TIE_FLEXPROG2)
+    PROPS[_pid]["trusted_base"] = list(PROPS[_pid].get("trusted_base", [])) + [TIE_FLEXPROG2_TRUSTED]
+
 # Tier T for the slice / Vec / iterator code of the grid (extract/src/{slices,gridinit}.rs): effects (checked u16 arithmetic, unwrap)
 # in Except GErr in Rust's evaluation order, slices / finite iterators as Lists, cycle() / repeat as Slice.Stream, loops as folds over
 # the tuple of the locals they assign (vocabulary: Model/SliceOps.lean). Generated/TrackFns.lean: the track sizing functions of
